@@ -5,6 +5,7 @@ from __future__ import annotations
 from . import refcodec as rc
 from . import seccrypto as sc
 from .netsim import Monitor
+from .wiremon import ego_fields
 from .props import c01
 
 
@@ -65,5 +66,12 @@ class _SecTxMonitor(Monitor):
         if len(frame) < 5 or (frame[0] & 0x0F) != rc.NH_SECURED:
             return
         m = sc.parse_signed_message(frame[4:])
+        ego = None
+        st = sim.stations[rec["st"]]
+        if st.role == "stack":
+            try:
+                ego = ego_fields(st.ego())          # the sender's position vector at the instant of transmission (reference for the signed GN-PDU)
+            except Exception:
+                ego = None
         sim.sectx.append({"i": rec["i"], "t": rec["t"], "ev": rec["ev"], "st": rec["st"], "gen": rec["gen"], "msg": bytes(frame[4:]), "m": m,
-                          "cause": rec["cause"], "injected": rec.get("injected", False)})
+                          "cause": rec["cause"], "injected": rec.get("injected", False), "ego": ego})
